@@ -21,4 +21,116 @@ pub proof fn lemma_all_labelled_append(a: Seq<Packet>, b: Seq<Packet>, order: Se
     }
 }
 
+/// C08: what a reliable packet carries names queued messages (of the kind it carries them as) of the channel it is labelled with
+pub open spec fn carried_in(p: Packet, chans: Map<u8, SendChannelReliable>) -> bool {
+    match p {
+        Packet::SmallReliable { sequence, channel_id, messages } => chans.contains_key(channel_id) && carried_ok(p, chans[channel_id].unacked_messages@),
+        Packet::ReliableSlice { sequence, channel_id, slice } => chans.contains_key(channel_id) && carried_ok(p, chans[channel_id].unacked_messages@),
+        _ => true,
+    }
+}
+pub open spec fn all_carried_in(s: Seq<Packet>, chans: Map<u8, SendChannelReliable>) -> bool {
+    forall|i: int| 0 <= i < s.len() ==> carried_in(#[trigger] s[i], chans)
+}
+/// the reliable send channels of `b` are those of `a` with the same queues up to what sending changes: same ids, same kinds, same slice counts
+#[verifier::opaque]
+pub open spec fn kinds_kept(a: Map<u8, SendChannelReliable>, b: Map<u8, SendChannelReliable>) -> bool {
+    &&& a.dom() == b.dom()
+    &&& forall|c: u8| #[trigger] a.contains_key(c) ==> a[c].unacked_messages@.dom() == b[c].unacked_messages@.dom()
+            && a[c].next_reliable_message_id == b[c].next_reliable_message_id
+            && forall|id: u64| #[trigger] a[c].unacked_messages@.contains_key(id) ==> same_kind(a[c].unacked_messages@[id], b[c].unacked_messages@[id])
+}
+pub proof fn lemma_carried_in_kinds_kept(s: Seq<Packet>, a: Map<u8, SendChannelReliable>, b: Map<u8, SendChannelReliable>)
+    requires all_carried_in(s, a), kinds_kept(a, b),
+    ensures all_carried_in(s, b),
+{
+    reveal(kinds_kept);
+    assert forall|i: int| 0 <= i < s.len() implies carried_in(#[trigger] s[i], b) by {
+        assert(carried_in(s[i], a));
+        match s[i] {
+            Packet::SmallReliable { sequence, channel_id, messages } => {
+                assert(a.contains_key(channel_id));
+                lemma_carried_same_kinds(seq![s[i]], Seq::<(u64, Bytes)>::empty(), a[channel_id].unacked_messages@, b[channel_id].unacked_messages@);
+                assert(carried_ok(seq![s[i]][0], b[channel_id].unacked_messages@));
+            },
+            Packet::ReliableSlice { sequence, channel_id, slice } => {
+                assert(a.contains_key(channel_id));
+                lemma_carried_same_kinds(seq![s[i]], Seq::<(u64, Bytes)>::empty(), a[channel_id].unacked_messages@, b[channel_id].unacked_messages@);
+                assert(carried_ok(seq![s[i]][0], b[channel_id].unacked_messages@));
+            },
+            _ => {},
+        }
+    }
+}
+pub proof fn lemma_all_carried_in_append(a: Seq<Packet>, b: Seq<Packet>, chans: Map<u8, SendChannelReliable>)
+    requires all_carried_in(a, chans), all_carried_in(b, chans),
+    ensures all_carried_in(a + b, chans),
+{
+    assert forall|i: int| 0 <= i < (a + b).len() implies carried_in(#[trigger] (a + b)[i], chans) by {
+        if i >= a.len() { assert((a + b)[i] == b[i - a.len()]); }
+    }
+}
+/// a record that satisfies the record invariant keeps doing so while the reliable send channels only change by sending (same ids, same kinds)
+pub proof fn lemma_record_ok_kinds_kept(a: RenetClient, b: RenetClient, info: PacketSentInfo)
+    requires a.record_ok(info), kinds_kept(a.send_reliable_channels@, b.send_reliable_channels@),
+    ensures b.record_ok(info),
+{
+    reveal(kinds_kept);
+    match info {
+        PacketSentInfo::ReliableMessages { channel_id, message_ids } => {
+            assert(a.send_reliable_channels@.contains_key(channel_id));
+            assert forall|k: int| 0 <= k < message_ids@.len() implies
+                (b.send_reliable_channels@[channel_id].unacked_messages@.contains_key(#[trigger] message_ids@[k])
+                    ==> b.send_reliable_channels@[channel_id].unacked_messages@[message_ids@[k]] is Small) by {
+                if b.send_reliable_channels@[channel_id].unacked_messages@.contains_key(message_ids@[k]) {
+                    assert(a.send_reliable_channels@[channel_id].unacked_messages@.contains_key(message_ids@[k]));
+                }
+            }
+        },
+        PacketSentInfo::ReliableSliceMessage { channel_id, message_id, slice_index } => {
+            assert(a.send_reliable_channels@.contains_key(channel_id));
+            if b.send_reliable_channels@[channel_id].unacked_messages@.contains_key(message_id) {
+                assert(a.send_reliable_channels@[channel_id].unacked_messages@.contains_key(message_id));
+            }
+        },
+        _ => {},
+    }
+}
+/// the records filed under `seq0 .. seq0 + n` exist and satisfy the record invariant of client `c`
+#[verifier::opaque]
+pub open spec fn new_records_ok(c: RenetClient, sp: Map<u64, PacketSent>, seq0: int, n: int) -> bool {
+    forall|i: int| 0 <= i < n ==> sp.contains_key((seq0 + i) as u64) && c.record_ok((#[trigger] sp[(seq0 + i) as u64]).info)
+}
+pub proof fn lemma_kinds_kept_refl(a: Map<u8, SendChannelReliable>)
+    ensures kinds_kept(a, a),
+{ reveal(kinds_kept); }
+pub proof fn lemma_kinds_kept_trans(a: Map<u8, SendChannelReliable>, b: Map<u8, SendChannelReliable>, c: Map<u8, SendChannelReliable>)
+    requires kinds_kept(a, b), kinds_kept(b, c),
+    ensures kinds_kept(a, c),
+{
+    reveal(kinds_kept);
+    assert forall|ch: u8| #[trigger] a.contains_key(ch) implies a[ch].unacked_messages@.dom() == c[ch].unacked_messages@.dom()
+            && a[ch].next_reliable_message_id == c[ch].next_reliable_message_id
+            && forall|id: u64| #[trigger] a[ch].unacked_messages@.contains_key(id) ==> same_kind(a[ch].unacked_messages@[id], c[ch].unacked_messages@[id]) by {
+        assert(b.contains_key(ch));
+        assert forall|id: u64| #[trigger] a[ch].unacked_messages@.contains_key(id) implies same_kind(a[ch].unacked_messages@[id], c[ch].unacked_messages@[id]) by {
+            assert(b[ch].unacked_messages@.contains_key(id));
+        }
+    }
+}
+/// one reliable channel replaced by what its get_packets_to_send leaves (same ids, kinds, id counter), every other channel untouched
+pub proof fn lemma_kinds_kept_one(a: Map<u8, SendChannelReliable>, b: Map<u8, SendChannelReliable>, c: u8)
+    requires a.dom() == b.dom(), a.contains_key(c),
+        forall|x: u8| #[trigger] a.contains_key(x) && x != c ==> b[x] == a[x],
+        a[c].unacked_messages@.dom() == b[c].unacked_messages@.dom(), a[c].next_reliable_message_id == b[c].next_reliable_message_id,
+        forall|id: u64| #[trigger] a[c].unacked_messages@.contains_key(id) ==> same_kind(b[c].unacked_messages@[id], a[c].unacked_messages@[id]),
+    ensures kinds_kept(a, b),
+{
+    reveal(kinds_kept);
+    assert forall|x: u8| #[trigger] a.contains_key(x) implies a[x].unacked_messages@.dom() == b[x].unacked_messages@.dom()
+            && a[x].next_reliable_message_id == b[x].next_reliable_message_id
+            && forall|id: u64| #[trigger] a[x].unacked_messages@.contains_key(id) ==> same_kind(a[x].unacked_messages@[id], b[x].unacked_messages@[id]) by {
+        if x != c { assert(b[x] == a[x]); }
+    }
+}
 // ---- end shared client label specs ----
